@@ -149,7 +149,7 @@ func runC02(c *Ctx) error {
 	c.Rule = "random and template grammars without error alternatives that gocc generates without announcing conflicts; inputs = all short strings over the terminals, random sentences, prefix+terminal probes and mutants, fed by token name; verdict compared with Earley membership; non-trivial = distinct (grammar, token sequence) with at least one token"
 	c.Assumptions = []string{"M-EARLEY is a correct recogniser (cross-checked against M-LR1 on every conflict-free grammar of the run)", "token sequences are delivered through the Scanner interface by name (TokMap.Type)"}
 	jobs := genSynJobs(c.Rng, nG, "g", synFilter{actionMode: 0, flags: flagsZipAlternate,
-		family: func(i int) string { return []string{"nulllist", "", "lr1notlalr", "deadnt", "lr2", "", "firstchain", "", "nullable", "", "", "manyterms", "", "longkeyed", "", "long", "", "lasubset", "", ""}[i%20] }})
+		family: func(i int) string { return []string{"nulllist", "", "lr1notlalr", "deadnt", "lr2", "optafter", "firstchain", "", "nullable", "nulllist", "", "manyterms", "", "longkeyed", "", "long", "", "lasubset", "optafter", ""}[i%20] }})
 	jobs = append(jobs, corpusSynJobs(c, c.Rng, "k", synFilter{actionMode: 0, flags: flagsZipAlternate})...)
 	inRng := rand.New(rand.NewSource(c.Seed*31 + 2))
 	var refs []*parseRef
@@ -407,7 +407,7 @@ func runC06(c *Ctx) error {
 	c.Assumptions = []string{"for a grammar whose nonterminals are all productive every non-empty Earley set is a viable prefix", "expected-token lists are compared as sets of names"}
 	jobs := genSynJobs(c.Rng, nG, "g", synFilter{class: func(k model.LRClass) bool { return k == model.ClassClean }, productive: true, nonEmpty: true, actionMode: 0, flags: flagsZipAlternate,
 		noStrLits: func(i int) bool { return i%3 == 0 }, family: func(i int) string {
-			return []string{"wide", "", "lr1notlalr", "", "nulllist", "lasubset", "longkeyed", "", "lafirst", "lasubset", "long", "nullable"}[i%12]
+			return []string{"wide", "optafter", "lr1notlalr", "", "nulllist", "lasubset", "longkeyed", "nulllist", "lafirst", "lasubset", "long", "nullable"}[i%12]
 		}})
 	jobs = append(jobs, corpusSynJobs(c, c.Rng, "k", synFilter{class: func(k model.LRClass) bool { return k == model.ClassClean }, productive: true, nonEmpty: true, actionMode: 0, flags: flagsZipAlternate})...)
 	inRng := rand.New(rand.NewSource(c.Seed*43 + 7))
